@@ -120,6 +120,18 @@ Judge(s, obs) ==
                expected |-> ToString(ExpectedWarnings(s)), observed |-> ToString(obs.nwarn)] }
        ELSE {})
 
+(* Two modules of one package that each define a class Config and document a parameter with the type text "Config": in either module  *)
+(* the text names that module's own class - for the hinted parameter (no conflict, no warning) and for the one only the docstring types. *)
+(* obs = [mod, ptypes: Seq qualified names (package prefix removed), imported: Seq names imported by the stub, nwarn]                    *)
+JudgeTwin(s, obs) ==
+  LET own == obs.mod \o ".Config" IN
+     { [property |-> "C14", clause |-> "Type", sig |-> "same-type-text-in-two-modules:" \o s.style \o ":" \o s.pref \o ":" \o (IF j = 1 THEN "hinted" ELSE "docstring-only"),
+        expected |-> own, observed |-> obs.ptypes[j]] : j \in { j \in 1..Len(obs.ptypes) : obs.ptypes[j] # own } }
+  \cup (IF obs.nwarn = 0 THEN {} ELSE { [property |-> "C14", clause |-> "WarnBag", sig |-> "same-type-text-in-two-modules:" \o s.style \o ":spurious-warning",
+                                           expected |-> "0", observed |-> ToString(obs.nwarn)] })
+  \cup { [property |-> "C14", clause |-> "Type", sig |-> "same-type-text-in-two-modules:" \o s.style \o ":own-class-imported", expected |-> "no import", observed |-> obs.imported[j]]
+          : j \in { j \in 1..Len(obs.imported) : obs.imported[j] = "Config" } }
+
 JudgePair(s, obs) ==
   IF obs.a = obs.b THEN {}
   ELSE { [property |-> "C14", clause |-> "WarnNeutral", sig |-> "output-differs:" \o s.style \o ":" \o s.pref,
